@@ -790,7 +790,7 @@ func parseRand(c *common, w *ndWriter, dir string) {
 	if n == 0 {
 		n = 1500
 		if c.thorough() {
-			n = 20000
+			n = 10000
 		}
 	}
 	files := parseCorpusFiles(dir)
